@@ -251,19 +251,21 @@ fn idle_pop_finds_work(start: usize) {
     let r = a.pop();
     kani::assert(r.is_some(), "C06.idle_local_queue_obtains_waiting_work");
     let sib = q.local_queues.get(1).unwrap();
-    match sf {
-        Some((sp, fv)) => {
-            // the sibling held work: the thief is served the sibling's most urgent item, the rest keeps its place
-            kani::assert(r == Some(fv), "C05.steal_serves_the_victims_most_urgent_item_first");
-            kani::assert(l_count(a.queue, x) + l_count(sib, x) + (if fv == x { 1 } else { 0 }) == total_x, "C03.steal_neither_loses_nor_duplicates_an_item");
-            kani::assert(l_items(a.queue) + l_items(sib) + 1 == total, "C03.steal_neither_loses_nor_duplicates_an_item");
-            kani::assert(l_count_at(a.queue, k, x) + l_count_at(sib, k, x) + (if k == sp && fv == x { 1 } else { 0 }) == at_k, "C05.items_keep_their_priority");
-            kani::assert(a.local_len() >= l_items(a.queue), "C04.local_counter_never_below_content");
-        }
-        None => { kani::assert(r == sv, "C06.idle_local_queue_falls_back_to_the_shared_queue"); }
+    if unsafe { NORDER } == 0 {
+        // served by a steal (the shared queue was not consulted): the thief gets the victim's most urgent item,
+        // whatever else moved kept its priority, nothing was lost or duplicated
+        let (sp, fv) = sf.unwrap_or((0, 0));
+        kani::assert(sf.is_some() && r == Some(fv), "C05.steal_serves_the_victims_most_urgent_item_first");
+        kani::assert(l_count(a.queue, x) + l_count(sib, x) + (if fv == x { 1 } else { 0 }) == total_x, "C03.steal_neither_loses_nor_duplicates_an_item");
+        kani::assert(l_items(a.queue) + l_items(sib) + 1 == total, "C03.steal_neither_loses_nor_duplicates_an_item");
+        kani::assert(l_count_at(a.queue, k, x) + l_count_at(sib, k, x) + (if k == sp && fv == x { 1 } else { 0 }) == at_k, "C05.items_keep_their_priority");
+        kani::assert(a.local_len() >= l_items(a.queue), "C04.local_counter_never_below_content");
+    } else {
+        kani::assert(r == sv, "C06.idle_local_queue_falls_back_to_the_shared_queue");
+        kani::assert(l_count(a.queue, x) + l_count(sib, x) == total_x && l_items(a.queue) + l_items(sib) == total, "C03.steal_neither_loses_nor_duplicates_an_item");
     }
-    kani::cover!(sf.is_some() && believed == 0, "C06.cover_steal_from_sibling");
-    kani::cover!(sf.is_some() && believed == CAP, "C06.cover_stale_counter_with_sibling_work");
+    kani::cover!(sf.is_some() && believed == 0 && unsafe { NORDER } == 0, "C06.cover_steal_from_sibling");
+    kani::cover!(sf.is_some() && believed == CAP && unsafe { NORDER } == 0, "C06.cover_stale_counter_with_sibling_work");
     kani::cover!(sf.is_none(), "C06.cover_fallback_to_shared");
     std::mem::forget(a);
     std::mem::forget(q);
@@ -271,41 +273,37 @@ fn idle_pop_finds_work(start: usize) {
 
 // ---------------------------------------------------------------------------------------------- C05 / C03 / C04: push
 /// From every Inv_reach state a local push returns (unwinding assertions on: O4), keeps every item (O3), appends
-/// the new item behind its equals (O5), moves only the least urgent items to the shared queue on overflow and
-/// keeps their priority (O5), and leaves the counters as Inv_reach demands.
+/// the new item behind its equals (O5), hands whatever overflows to the shared queue under its own priority (O5)
+/// and leaves the counter as Inv_reach demands. The shared queue's push is represented by its contract (proved in
+/// q_ordered_shared_push_pop: appends under the given priority and counts): here it records what it is handed.
 #[kani::proof]
 #[kani::unwind(5)]
+#[kani::stub(OrderedWorkStealQueue::push_with_priority, mirror::MS::push_with_priority)]
 fn q_ordered_local_push() {
-    let (mut gs, mut s0, mut s1) = (GSlots::any(1), LSlots::any(2), LSlots::empty());
-    let (g, l0) = (gs.map(), s0.map());
+    let (mut gs, mut s0, mut s1) = (GSlots::empty(), LSlots::any(2), LSlots::empty());
+    let l0 = s0.map();
     let x: It = kani::any();
-    let total_x = g_count(&g, x) + l_count(&l0, x);
-    let total = g_items(&g) + l_items(&l0);
-    let content = l_items(&l0);
-    let lf = l_front(&l0);
-    let q = mk_shared(g, l0, s1.map());
+    let k: c_longlong = kani::any(); // witness priority: every item keeps its key
+    let (total_x, content, at_k, lf) = (l_count(&l0, x), l_items(&l0), l_count_at(&l0, k, x), l_front(&l0));
+    let q = mk_shared(gs.map(), l0, s1.map());
     let believed: usize = kani::any();
     kani::assume(believed >= content && believed <= CAP);
     let a = mk_local(&q, 0, believed, 0);
     let p: c_longlong = kani::any();
     let v: It = kani::any();
-    let k: c_longlong = kani::any(); // witness priority: every item keeps its key
-    let at_k = l_count_at(a.queue, k, x) + g_count_at(&q.shared_queue, k, x);
+    unsafe { NHANDED = 0; }
     a.push_with_priority(p, v);
-    kani::assert(g_items(&q.shared_queue) + l_items(a.queue) == total + 1, "C03.push_adds_exactly_one_item");
-    kani::assert(g_count(&q.shared_queue, x) + l_count(a.queue, x) == total_x + (if v == x { 1 } else { 0 }), "C03.push_neither_loses_nor_duplicates_an_item");
-    kani::assert(q.len() == g_items(&q.shared_queue), "C03.shared_len_counts_the_items_it_holds");
+    let (hx, hk, hn) = unsafe { (handed_count(None, x), handed_count(Some(k), x), NHANDED) };
+    kani::assert(l_items(a.queue) + hn == content + 1, "C03.push_adds_exactly_one_item");
+    kani::assert(l_count(a.queue, x) + hx == total_x + (if v == x { 1 } else { 0 }), "C03.push_neither_loses_nor_duplicates_an_item");
+    kani::assert(l_count_at(a.queue, k, x) + hk == at_k + (if k == p && v == x { 1 } else { 0 }), "C05.items_keep_their_priority");
     kani::assert(a.local_len() >= l_items(a.queue) && a.local_len() <= CAP, "C04.local_counter_never_below_content");
-    // whatever moves to the shared queue on overflow keeps its priority; the new item is filed under p
-    kani::assert(l_count_at(a.queue, k, x) + g_count_at(&q.shared_queue, k, x) == at_k + (if k == p && v == x { 1 } else { 0 }), "C05.items_keep_their_priority");
-    // the new item sits at the tail of its priority, in the local queue or (overflow) in the shared one
-    kani::assert(l_back_at(a.queue, p) == Some(v) || g_back_at(&q.shared_queue, p) == Some(v), "C05.push_appends_behind_its_equals");
-    // the most urgent local item stays the most urgent one served, unless the new item is more urgent
-    if let Some((fp, fv)) = lf {
-        if believed < CAP {
-            let nf = l_front(a.queue);
-            kani::assert(nf == Some(if p < fp { (p, v) } else { (fp, fv) }), "C05.push_does_not_reorder_waiting_items");
-        }
+    // the new item is the newest of its priority in the queue it went to
+    let last = unsafe { if hn > 0 { Some(HANDED[hn - 1]) } else { None } };
+    kani::assert(l_back_at(a.queue, p) == Some(v) || last == Some((p, v)), "C05.push_appends_behind_its_equals");
+    if believed < CAP {
+        kani::assert(hn == 0, "C05.no_overflow_below_capacity");
+        if let Some((fp, fv)) = lf { kani::assert(l_front(a.queue) == Some(if p < fp { (p, v) } else { (fp, fv) }), "C05.push_does_not_reorder_waiting_items"); }
     }
     kani::cover!(believed == CAP && content == CAP, "C05.cover_overflow_with_full_queue");
     kani::cover!(believed == CAP && content == 0, "C04.cover_stale_counter_on_push");
@@ -350,10 +348,19 @@ pub(crate) static mut STUB_LOCAL: Option<It> = None; // what pop_local will answ
 pub(crate) static mut STUB_SHARED: Option<It> = None; // what the shared pop will answer
 pub(crate) static mut ORDER: [u8; 4] = [0; 4]; // consultation order: 1 = shared, 2 = local
 pub(crate) static mut NORDER: usize = 0;
+pub(crate) static mut HANDED: [(c_longlong, It); 4] = [(0, 0); 4]; // what the shared push was handed, in order
+pub(crate) static mut NHANDED: usize = 0;
+/// occurrences of x among the recorded hand-overs (under priority k if given)
+pub(crate) unsafe fn handed_count(k: Option<c_longlong>, x: It) -> usize {
+    let mut n = 0;
+    let mut i = 0;
+    while i < 4 { if i < NHANDED && HANDED[i].1 == x && (k.is_none() || k == Some(HANDED[i].0)) { n += 1; } i += 1; }
+    n
+}
 pub(crate) fn note(w: u8) { unsafe { if NORDER < 4 { ORDER[NORDER] = w; } NORDER += 1; } }
 /// mirror impls: a stub of a generic method needs the same generics layout and names as the original
 pub(crate) mod mirror {
-    use super::{note, It, STUB_LOCAL, STUB_SHARED};
+    use super::{note, It, STUB_LOCAL, STUB_SHARED, HANDED, NHANDED};
     use crate::common::ordered_work_steal::{OrderedLocalQueue, OrderedWorkStealQueue};
     use std::fmt::Debug;
     fn cast<T>(v: Option<It>) -> Option<T> { assert!(std::mem::size_of::<T>() == std::mem::size_of::<It>()); v.map(|x| unsafe { std::mem::transmute_copy::<It, T>(&x) }) }
@@ -364,6 +371,11 @@ pub(crate) mod mirror {
     pub(crate) struct MS<T: Debug>(std::marker::PhantomData<T>);
     impl<T: Debug> MS<T> {
         pub(crate) fn pop(_q: &OrderedWorkStealQueue<T>) -> Option<T> { note(1); cast(unsafe { STUB_SHARED.take() }) }
+        pub(crate) fn push_with_priority(_q: &OrderedWorkStealQueue<T>, priority: std::ffi::c_longlong, item: T) {
+            assert!(std::mem::size_of::<T>() == std::mem::size_of::<It>());
+            unsafe { assert!(NHANDED < 4, "recorder bound"); HANDED[NHANDED] = (priority, std::mem::transmute_copy::<T, It>(&item)); NHANDED += 1; }
+            std::mem::forget(item);
+        }
     }
 }
 
